@@ -310,7 +310,7 @@ class Judge:
             'no_stl': not program['stl'],
             'werror': rng.random() < 0.5,
             'debug': rng.random() < 0.5,
-            'preset': rng.choice([None, None, None, 0, 9]),
+            'preset': rng.choice([None, None, None, 0, 1, 2, 3, 9]),
             'relative_paths': rng.random() < 0.4,
         }
         case = {'program': program.get('name', 'generated'), 'files': files, 'opts': opts, 'width': width}
@@ -341,8 +341,27 @@ class Judge:
             self.counters.setdefault('assembly_failures', [])
             if len(self.counters['assembly_failures']) < 5:
                 self.counters['assembly_failures'].append((case['program'], se.decode('latin-1')[-200:]))
+            # every other route must refuse it as well
+            spec = {'files': files, 'out': str(d / 'api.fjm'), 'width': width if opts['explicit_width'] else None,
+                    'version': opts['version'], 'no_stl': opts['no_stl'], 'werror': opts['werror'], 'debug': None, 'run': runnable,
+                    'stdin_hex': stdin.hex()}
+            rc_c, so_c, se_c = self.api(spec, d, stdin)
+            rc_a, so_a, se_a = self.cli(['-s', '-o', str(d / 'one_step.fjm')] + common + src_args, cwd, stdin)
+            self.count('monitor_evaluations')
+            self.count('refusals_compared')
+            if rc_c == 0 or rc_a == 0 or b'FJVERIF-ONESTEP' in se_c:
+                self.bad('routes-disagree-on-acceptance', f'{case["program"]} {opts}: fj --asm refuses it; one-step fj rc={rc_a}, API rc={rc_c}', case)
+            shutil.rmtree(d, ignore_errors=True)
             return
         bytes_b = out_b.read_bytes()
+        if opts['version'] is None and opts['preset'] is not None:
+            # the documented default with -o is version 3: saying so explicitly must give the same bytes, preset included
+            out_e = d / 'explicit_v3.fjm'
+            self.cli(['--asm', '-s', '-o', str(out_e), '-v', '3'] + common + src_args, cwd)
+            self.count('default_version_vs_explicit_v3_with_preset')
+            if not out_e.exists() or out_e.read_bytes() != bytes_b:
+                self.bad('fjm-bytes/default-version-vs-explicit-v3', f'{case["program"]} {opts}: -o with --lzma_preset {opts["preset"]} differs '
+                         f'from the same command with -v 3', case)
         # route A1: one-step with -o
         out_a = d / 'one_step.fjm'
         dbg_a = d / 'one_step.fjd'
@@ -393,6 +412,9 @@ class Judge:
             cap = d / 'capture'
             rc_t, so_t, se_t = self.cli(['-s'] + common + src_args, cwd, stdin, capture=cap)
             outs = {'one-step -o': so_a, 'two-step --run': so_r, 'one-step temp': so_t, 'api': so_c}
+            if program.get('warns'):
+                # (routes that assemble in the same process print the warning before the program's output)
+                outs = {k: (so_r if v.endswith(so_r) else v) for k, v in outs.items()}
             if len(set(outs.values())) != 1:
                 detail = {k: v[:60] for k, v in outs.items()}
                 self.bad('program-output-differs-between-routes', f'{case["program"]} {opts}: {detail}', case)
@@ -450,6 +472,15 @@ def run_shard(spec: Dict[str, Any], journal: Any) -> Dict[str, Any]:
     rng.shuffle(mine)
     for program in mine[:spec['cases']]:
         judge.one_case(rng, program, runnable=True)
+    hello = REPO_ROOT / 'programs' / 'print_tests' / 'hello_no-stl.fj'
+    if hello.exists():
+        warn_dir = workdir / 'warns'
+        warn_dir.mkdir(exist_ok=True)
+        (warn_dir / 'warning_hello.fj').write_text(hello.read_text() + '\ndef wm_unused a, b {\n  ;a\n}\n')
+        for _ in range(2):
+            judge.one_case(rng, {'name': 'warning-bearing-hello', 'files': [str(warn_dir / 'warning_hello.fj')], 'width': 64, 'stl': False,
+                                 'input': None, 'warns': True}, runnable=True)
+            judge.count('warning_bearing_cases')
     small = [p for p in programs if any(k in p['name'] for k in ('hello', 'cat', 'simple', 'testbit', 'rep', 'func1', 'print_as'))] or programs
     for _ in range(3 if spec['cases'] <= 5 else spec['cases'] // 3):
         judge.session(rng, small)
